@@ -203,3 +203,49 @@ func ifaceNumMethods(t types.Type) int {
 func ifaceMethodName(t types.Type, i int) string {
 	return t.(*types.Interface).Method(i).Name()
 }
+
+// rootsOf: the entry functions (exported, or without module callers) from which f is reached through at most
+// `up` static calls; f itself when it has no callers.
+func (c *Ctx) rootsOf(f *ssa.Function, up int) []*ssa.Function {
+	callers := map[*ssa.Function][]*ssa.Function{}
+	for _, g := range c.libFuncs() {
+		an.AllInstrs(g, func(in ssa.Instruction) {
+			if call := an.CallOf(in); call != nil {
+				if callee := an.StaticCallee(call); callee != nil && callee != g {
+					callers[callee] = append(callers[callee], g)
+				}
+			}
+		})
+	}
+	// a recursive function is its own root: what a first caller established need not hold for the recursive calls
+	for _, cg := range callers[an.Origin(f)] {
+		if cg == an.Origin(f) {
+			return []*ssa.Function{f}
+		}
+	}
+	for _, call := range callSitesByCaller[an.Origin(f)] {
+		if g := an.StaticCallee(call); g == an.Origin(f) {
+			return []*ssa.Function{f}
+		}
+	}
+	seen := map[*ssa.Function]bool{}
+	var roots []*ssa.Function
+	var walk func(g *ssa.Function, d int)
+	walk = func(g *ssa.Function, d int) {
+		if seen[g] {
+			return
+		}
+		seen[g] = true
+		if len(callers[g]) == 0 || d >= up || (isEntryPoint(g) && g != f) {
+			roots = append(roots, g)
+			return
+		}
+		for _, cg := range callers[g] {
+			walk(cg, d+1)
+		}
+	}
+	walk(an.Origin(f), 0)
+	return roots
+}
+
+const deepDefault = 4
